@@ -5,8 +5,11 @@
 (* set of outcomes the statement admits and (separately) the outcomes that *)
 (* only the deviation match-array-alt-stops predicts.                      *)
 (*   tier 1: one case, <= 2 alternatives (ordered) from PoolA, every body  *)
-(*   tier 2: two cases, <= 2 alternatives from PoolB, five body schemes    *)
-(*   tier 3: three cases, alternative lists AltsC, five body schemes       *)
+(*   tier 2: two cases, <= 2 alternatives from PoolB, six body schemes     *)
+(*   tier 3: three cases, alternative lists AltsC, six body schemes        *)
+(* Bodies may read names bound only by an alternative / case that does not *)
+(* match (tier 1: every such name; tiers 2, 3: scheme G): the value must   *)
+(* be the program's global.                                                *)
 (* Source text and output are emitted as token sequences; numbers other    *)
 (* than 1, the string and the identifier names are opaque atoms ("#2",     *)
 (* "#5", "$a", "@x" ...) instantiated per seed by the harness.             *)
@@ -41,25 +44,36 @@ PoolBq == {PLit(N1), PLit(SA), PX, Pux, P1y, P2y, Puy}
 PoolB == IF Big THEN PoolBq \cup {PLit(N2), PLit(Null), PArr(<<>>), Pxy, P1uy} ELSE PoolBq
 
 AltLists(P) == {<<p>> : p \in P} \cup {pq \in P \X P : pq[1] # pq[2]}
+\* [x, 2] against [2, 5] binds x and then fails at the second position: the
+\* lists below let a later alternative / a later case match after that
+BindThenFail == { <<Px2>>, <<Px2, P2y>> }
+AltsB == AltLists(PoolB) \cup BindThenFail
 AltsCq == {<<p>> : p \in PoolBq} \cup
-          { <<P1y, P2y>>, <<P2y, P1y>>, <<Pux, PLit(SA)>>, <<PLit(N1), PX>>, <<Puy, P1y>> }
+          { <<P1y, P2y>>, <<P2y, P1y>>, <<Pux, PLit(SA)>>, <<PLit(N1), PX>>, <<Puy, P1y>>, <<Px2, P2y>> }
 AltsC == IF Big
          THEN AltsCq \cup {<<p>> : p \in PoolB} \cup
               { <<PLit(SA), Pux>>, <<PLit(N1), PLit(N2)>>, <<Pxy, PLit(N1)>>, <<P1uy, P2y>>,
                 <<PArr(<<>>), Pux>>, <<PLit(Null), PLit(N1)>>, <<P2y, Px2>> }
          ELSE AltsCq
 
-\* names bound by every alternative of a case
+\* names bound by every alternative of a case / by some alternative of a case
 Common(alts) == {n \in {"x", "y", "u"} : \A i \in 1..Len(alts) : n \in PatNames(alts[i])}
+AnyName(alts) == UNION {PatNames(alts[i]) : i \in 1..Len(alts)}
 First(C) == IF "x" \in C THEN "x" ELSE IF "y" \in C THEN "y" ELSE "u"
 
+\* tier 1: a body may read every name some alternative binds (where the matching
+\* alternative does not bind it, it is the global)
 BodiesA(alts) == {Body("const", ""), Body("marker", ""), Body("block", "")}
-                 \cup {Body("name", n) : n \in Common(alts)}
-                 \cup {Body("blockname", n) : n \in Common(alts)}
+                 \cup {Body("name", n) : n \in AnyName(alts)}
+                 \cup {Body("blockname", n) : n \in AnyName(alts)}
 
-Schemes == {"M", "B", "MB", "BM", "V"}
-SchemeBody(sch, k, alts) ==
+\* scheme G ("global"): the body of case k reads a name that some alternative of
+\* cases 1..k binds but not every alternative of case k (seen: the names of the
+\* earlier cases): a name that can only come from a pattern that did not match
+Schemes == {"M", "B", "MB", "BM", "V", "G"}
+SchemeBody(sch, k, alts, seen) ==
   LET C == Common(alts)
+      X == (seen \cup AnyName(alts)) \ C
       blk == IF C = {} THEN Body("block", "") ELSE Body("blockname", First(C))
       val == IF C = {} THEN Body("const", "") ELSE Body("name", First(C))
       mk == Body("marker", "")
@@ -68,13 +82,15 @@ SchemeBody(sch, k, alts) ==
        [] sch = "MB" -> IF k % 2 = 1 THEN mk ELSE blk
        [] sch = "BM" -> IF k % 2 = 1 THEN blk ELSE mk
        [] sch = "V" -> val
+       [] sch = "G" -> IF X = {} THEN val
+                       ELSE IF k % 2 = 1 THEN Body("name", First(X)) ELSE Body("blockname", First(X))
 
 Case(alts, body) == [alts |-> alts, body |-> body]
 
 VARIABLES tier, first, cases, done
 vars == <<tier, first, cases, done>>
 
-FirstLists(t) == IF t = 1 THEN AltLists(PoolA) ELSE IF t = 2 THEN AltLists(PoolB) ELSE AltsC
+FirstLists(t) == IF t = 1 THEN AltLists(PoolA) ELSE IF t = 2 THEN AltsB ELSE AltsC
 
 Init == /\ tier \in Tiers
         /\ first \in FirstLists(tier)
@@ -84,12 +100,14 @@ Next == /\ ~done /\ done' = TRUE /\ UNCHANGED <<tier, first>>
         /\ \/ /\ tier = 1
               /\ \E b \in BodiesA(first) : cases' = <<Case(first, b)>>
            \/ /\ tier = 2
-              /\ \E a2 \in AltLists(PoolB), sch \in Schemes :
-                   cases' = <<Case(first, SchemeBody(sch, 1, first)), Case(a2, SchemeBody(sch, 2, a2))>>
+              /\ \E a2 \in AltsB, sch \in Schemes :
+                   cases' = <<Case(first, SchemeBody(sch, 1, first, {})),
+                              Case(a2, SchemeBody(sch, 2, a2, AnyName(first)))>>
            \/ /\ tier = 3
               /\ \E a2 \in AltsC, a3 \in AltsC, sch \in Schemes :
-                   cases' = <<Case(first, SchemeBody(sch, 1, first)), Case(a2, SchemeBody(sch, 2, a2)),
-                              Case(a3, SchemeBody(sch, 3, a3))>>
+                   cases' = <<Case(first, SchemeBody(sch, 1, first, {})),
+                              Case(a2, SchemeBody(sch, 2, a2, AnyName(first))),
+                              Case(a3, SchemeBody(sch, 3, a3, AnyName(first) \cup AnyName(a2)))>>
 
 \* ------------------------------------------------------------------------
 \* Laws (for the current case list, every subject, every reading)
@@ -138,8 +156,10 @@ BindLaw(v, rd) ==
        /\ Bound(r.b) = PatNames(p)
        /\ Len(r.b) = Cardinality(PatNames(p))
        /\ SameUpToEq(Inst(p, r.b), v)
-       /\ body.kind = "name" => o.val = Lookup(r.b, body.arg)
-       /\ body.kind = "blockname" => o.trace = <<Lookup(r.b, body.arg)>>
+       \* a name denotes the binding iff the pattern that matched binds it (syntactically)
+       /\ body.kind \in {"name", "blockname"} =>
+            LET want == IF body.arg \in PatNames(p) THEN Lookup(r.b, body.arg) ELSE Global(body.arg)
+            IN IF body.kind = "name" THEN o.val = want ELSE o.trace = <<want>>
 
 \* the readings differ only where an array meets a non-null literal
 ReadingLaw(v) ==
@@ -169,6 +189,7 @@ Laws == done =>
 NumTok(n) == CASE n = 1 -> "#1" [] n = 2 -> "#2" [] n = 5 -> "#5"
 StrTok(s) == CASE s = "a" -> "$a" [] s = "k1" -> "$k1" [] s = "k2" -> "$k2" [] s = "k3" -> "$k3"
                [] s = "c1" -> "$c1" [] s = "c2" -> "$c2" [] s = "c3" -> "$c3"
+               [] s = "gx" -> "$gx" [] s = "gy" -> "$gy" [] s = "gu" -> "$gu"
 NameTok(n) == CASE n = "x" -> "@x" [] n = "y" -> "@y" [] n = "u" -> "@u"
 
 RECURSIVE Join(_)
